@@ -1,7 +1,7 @@
 (* C12 — middleware chains run in onion order and Abort stops what has not started. *)
 From Coq Require Import String.
 From Coq Require Import List ZArith Lia Bool Arith Strings.Byte.
-Require Import Bytes Show Tables Chain ChainProofs.
+Require Import Bytes Show Tables Chain ChainProofs ChainNoWrap.
 Import ListNotations.
 Open Scope Z_scope.
 
@@ -17,6 +17,20 @@ Theorem C12_once_in_order_abort : forall (hs : list handler),
   forall fuel s', next fuel hs init = Some s' -> wrapped s' = false -> good (tr s').
 Proof. intros hs Hl. exact (C12_once_in_order_abort hs Hl abort_index_range). Qed.
 Print Assumptions C12_once_in_order_abort.
+
+(* A static condition that discharges the no-wrap hypothesis: when the number of handlers plus the number of Next
+   calls written in their bodies is at most 126 - AbortIndex (= 63 with AbortIndex = 63), the int8 index never
+   wraps in ANY run, so every handler is entered at most once, in order, and none after an Abort - no ghost flag
+   in the statement.  (`cost hs` = number of handlers + number of Next calls written in them.) *)
+Theorem C12_no_wrap_static : forall (hs : list handler),
+  Z.of_nat (length hs) < abortIndex -> abortIndex + cost hs + 1 <= 127 ->
+  forall fuel s', next fuel hs init = Some s' -> wrapped s' = false /\ good (tr s').
+Proof.
+  intros hs Hl Hc fuel s' H.
+  pose proof (no_wrap hs Hl abort_index_range Hc fuel s' H) as Wf.
+  split; [exact Wf|]. exact (ChainProofs.C12_once_in_order_abort hs Hl abort_index_range fuel s' H Wf).
+Qed.
+Print Assumptions C12_no_wrap_static.
 
 (* Onion order: the whole trace is a sequence of complete blocks  Enter i · body · Exit i  whose
    body consists of handler i's own marks, its Abort calls and complete blocks of the handlers it
